@@ -2,7 +2,7 @@ import json
 import os
 import vf
 
-HARNESS = dict(pkg_dir="index", run="TestVerifC01$", files=["index/zz_verif_c01_test.go"], n_quick=200, n_thorough=4000)
+HARNESS = dict(pkg_dir="index", run="TestVerifC01$", files=["index/zz_verif_c01_test.go"], n_quick=300, n_thorough=4000)
 RUNNER = dict(imports=["From ZV Require Import Lib.Base Model.SearchCore."], case_type="c01case", shard=200)
 RULE = ("random corpora (1-4 repositories in simple / compound shards, 28 % of the repositories of multi-repo shards tombstoned, 1-10 documents over a small token alphabet with forced "
         "repeats and overlaps, multi-byte runes, texts crossing the 100-rune sampling boundary, empty and < 3 rune files, skipped "
@@ -10,9 +10,10 @@ RULE = ("random corpora (1-4 repositories in simple / compound shards, 28 % of t
         "inside multi-byte runs, rarely empty) written with the real ShardBuilder and read back with NewSearcher, x query "
         "trees of depth <= 4 over all modelled atom kinds incl. Symbol{Substring} / Symbol{Regexp} (14 % of the atoms; patterns = a section text, inside "
         "one, straddling / just outside a section boundary) 30 % of the documents line-structured (1-4 lines of 1-4 words over a 9-word vocabulary, the word starting a line repeated alone on another line); "
-        "10 % of the atoms (+ 22 % of the regexp atoms) content regexps lit SEP lit (SEP lit) with 26 newline-capable separators ((?s:.*), (?s:.)*, (?s:.+), [\\s\\S]*, (?:.|\\n)*, [^q]*, \\s*, \\n, .*\\n.*, flag groups (?s (?i (?m (?U around the star or the whole regexp ...) and 12 same-line ones (.*, [^\\n]*, (?U:.*), (?m:.*) ...), "
+        "18 % of the atoms (+ 22 % of the regexp atoms) content regexps lit SEP lit (SEP lit) with 26 newline-capable separators ((?s:.*), (?s:.)*, (?s:.+), [\\s\\S]*, (?:.|\\n)*, [^q]*, \\s*, \\n, .*\\n.*, flag groups (?s (?i (?m (?U around the star or the whole regexp ...) and 12 same-line ones (.*, [^\\n]*, (?U:.*), (?m:.*) ...), "
         "the literals taken from the same line / adjacent lines / the first and the last line / reversed (first word at column 0, last word at the line end or at the end of a file without final newline, random cuts), literals wrapped in (?i: ), ( ), (?m:^ ), (?m: $); "
-        "9 % of the atoms content regexps of the same-line shape lit.*lit(.*lit) with the literals taken from ONE line (first word at column 0 / last word at the line end / random cuts, sometimes reversed) "
+        "30 % of the regexps parsed only (gRPC path: no OptimizeRegexp), 6 % of the atoms raw counted repetitions (L){2,} {2} {2,3} {1,2}; on shards with a tombstoned repository 16 % of the atoms RepoSet / RepoIDs filters; "
+        "12 % of the atoms content regexps of the same-line shape (55 % of them W0.*W1 with W0 at column 0 and more frequent than W1) or lit.*lit(.*lit) with the literals taken from ONE line (first word at column 0 / last word at the line end / random cuts, sometimes reversed) "
         "(patterns are substrings of real texts, case-flipped, boundary-straddling "
         "or noise; RepoSet / RepoIDs filters often contain every tombstoned repository plus as many alive ones as make matching = alive); non-trivial = the query selects a proper non-empty subset of the documents.")
 TRUSTED = ["translator/c01distill (go/ast over regexpToMatchTreeRecursive's `switch r.Op`: operators with a clause, the OpStar rule, the final return -> Generated/DistillSwitch.v); the per-operator bodies other than OpStar's are tied by the differential run only",
